@@ -1,6 +1,7 @@
 """Spec recipes (PuanCtor.tla) -> real objects built with the library's own constructors."""
 
 _SUB = {}
+_OCC = [0]
 def _leaf_subclass():
     import puan
     if "c" not in _SUB:
@@ -20,8 +21,14 @@ def build(r, leaf_str=False, via="ctor", style=0, memo=None, _root=True):
         if key not in memo:
             memo[key] = build(r, leaf_str, via, style, memo, True)
         return memo[key]
+    if _root: _OCC[0] = 0
     if r["c"] == "leaf":
-        if leaf_str and (r["lo"], r["hi"]) == (0, 1) and style != 1:
+        if style == 4 and (r["lo"], r["hi"]) == (0, 1):
+            # boolean leaves alternately as a bare id and as a variable object (period 3: two copies of one sub-proposition get
+            # different spellings of the same children)
+            _OCC[0] += 1
+            if _OCC[0] % 3 == 1: return r["id"]
+        if leaf_str and (r["lo"], r["hi"]) == (0, 1) and style not in (1, 4):
             return r["id"]
         cls = _leaf_subclass() if style == 1 else puan.variable
         # the same declaration in the spellings the constructor documents (tuple / list / Bounds / single integer, dtype named or not)
